@@ -20,6 +20,9 @@ CHECKS = {
     "C08": dict(level="exploration", technique="deterministic simulation (seeded and per-batch-exhaustive completion-order / execution-order / task-retry exploration; conservation + cross-schedule equality oracles)",
                 text="each generated network case is run under a base schedule and a family of alternative schedules (every permutation of each batch with <= 4 jobs, LIFO, lazy/shuffled execution, random joint orders, task retry); per-run bookkeeping conservation and cross-schedule equality of everything a step produces",
                 note="noise is a function of (run seed, job ordinal); estimates compared at 1e-9 relative; rounding-tie decision flips counted indeterminate; one known finding (F11) keyed on sensors tasked in several jobs"),
+    "C09": dict(level="fault_enumeration", technique="deterministic simulation with fault injection (kill / interrupt / DB error at chosen statements and commits, worker death; SQL auditor on the durable file; commit-prefix oracle)",
+                text="clean runs over step/output-step/run-splitting/membership configurations are audited by SQL on a fresh connection; the same case is re-run with a fault injected at sampled (quick) or all (thorough, short cases) database statements and commits - hard kill in a forked process, KeyboardInterrupt, OperationalError (I/O error, disk full, locked), simulated worker death - and the durable state must equal the clean run's state after the last completed commit",
+                note="faults land between statements / before commits (SQLite's internal atomic commit is trusted); expected rows derive from in-memory states captured after every step"),
     "C10": dict(level="exploration", technique="deterministic simulation (differential runs over configuration, run-splitting, schedule and retry variants; bit-equality oracle)",
                 text="families of scenarios sharing dynamics and initial states but differing in estimation/tasking/sensor/noise/output/splitting/schedule/agent-set are run under the simulator; truth compared bit for bit",
                 note="bit equality of in-memory truth after every step and of stored truth rows at common epochs; sampled families"),
